@@ -760,6 +760,10 @@ func runRoots(c *engine.Ctx) engine.Result {
 	}
 	if c.Replay != nil {
 		var mc rootsMigrateCase
+		if err := json.Unmarshal(c.Replay, &mc); err == nil && mc.Kind == "slow-load" {
+			runRootsSlowLoad(c, mc.Seq)
+			return res
+		}
 		if err := json.Unmarshal(c.Replay, &mc); err == nil && mc.Kind == "migrate" {
 			runRootsMigrate(c, mc)
 			return res
